@@ -114,6 +114,44 @@ def run(ctx, ck) -> None:
     ck.expect('D4', not bad_globals, bcast.node, 'no module-level state or configuration is read by mv or its helpers',
               f'mv or a helper reads module-level state / configuration: {bad_globals}', instance='no module state')
 
+    # D4c: the per-leaf function is independent of the other leaves: no mutable container created by mv is mutated
+    # (directly or through a helper) by the closure mapped over the leaves
+    MUT = {'update', 'append', 'setdefault', 'pop', 'add', 'extend', 'clear', 'insert', 'popitem', '__setitem__'}
+
+    def mutates_param(fn: ast.FunctionDef, pname: str) -> bool:
+        for n in ast.walk(fn):
+            if isinstance(n, ast.Subscript) and isinstance(n.ctx, (ast.Store, ast.Del)) and isinstance(n.value, ast.Name) and n.value.id == pname:
+                return True
+            if isinstance(n, ast.Call) and isinstance(n.func, ast.Attribute) and n.func.attr in MUT and isinstance(n.func.value, ast.Name) and n.func.value.id == pname:
+                return True
+        return False
+
+    for cls in (bcast, diag, dinv):
+        r = table.resolve(cls, 'mv')
+        fn = r.node
+        shared = set()
+        for st in fn.body:
+            if isinstance(st, (ast.Assign, ast.AnnAssign)):
+                v = st.value
+                tgt = st.targets[0] if isinstance(st, ast.Assign) else st.target
+                if isinstance(tgt, ast.Name) and (isinstance(v, (ast.Dict, ast.List, ast.Set)) or (isinstance(v, ast.Call) and isinstance(v.func, ast.Name) and v.func.id in ('dict', 'list', 'set'))):
+                    shared.add(tgt.id)
+        leaks = []
+        for inner in [n for n in ast.walk(fn) if isinstance(n, (ast.FunctionDef, ast.Lambda)) and n is not fn]:
+            for name in shared:
+                if isinstance(inner, ast.FunctionDef) and mutates_param(inner, name):
+                    leaks.append(f'{name} is mutated inside the per-leaf function')
+                for c in ast.walk(inner):
+                    if isinstance(c, ast.Call) and isinstance(c.func, ast.Attribute) and isinstance(c.func.value, ast.Name) and c.func.value.id == fn.args.args[0].arg:
+                        helper = table.resolve(cls, c.func.attr)
+                        if helper is not None and isinstance(helper.node, ast.FunctionDef):
+                            hp = [a.arg for a in helper.node.args.args][1:]
+                            for pos, a in enumerate(c.args):
+                                if isinstance(a, ast.Name) and a.id == name and pos < len(hp) and mutates_param(helper.node, hp[pos]):
+                                    leaks.append(f'{name} is handed to {c.func.attr}, which mutates it')
+        ck.expect('D4', not leaks, fn, f'{cls.name}.mv: the per-leaf function shares no mutable state between leaves',
+                  f'{cls.name}.mv: {leaks[0] if leaks else ""}: the result for one leaf depends on the leaves processed before it (e.g. a cache keyed without the leaf rank returns the layout of another leaf)', instance=f'{cls.name} leaf independence')
+
     # ------------------------------------------------------------------ D5 inverse
     r = table.resolve(diag, 'inverse')
     ok, why = c06.s_diagonal(ctx, table, diag, r) if r is not None and isinstance(r.node, ast.FunctionDef) else (False, 'inverse vanished')
